@@ -352,14 +352,16 @@ package z
 //@   ensures [C12] #size len(result.buffers[0]) >= sz && len(result.buffers[0]) >= 512
 
 //@ func (a *Allocator) TrimTo(max int)
-//@   requires GcWfChunks(a)
-//@   modifies a.buffers[*]
-//@   loop 1 invariant #shape a != nil && len(a.buffers) == 64 && len(a.buffers[0]) > 0 && 0 <= alloc && alloc <= (rangeindex+1)*(1<<30) && old(GcWfChunks(a))
+//@   requires GcWfChunks(a) && GcBI(a.compIdx) < 64
+//@   modifies a.buffers[*], a.compIdx
+//@   loop 1 invariant #shape a != nil && len(a.buffers) == 64 && len(a.buffers[0]) > 0 && 0 <= alloc && alloc <= (rangeindex+1)*(1<<30) && old(GcWfChunks(a)) && a.compIdx == old(a.compIdx)
 //@   loop 1 invariant #old forall i int :: 0 <= i && i < 64 ==> (gcSameRef(a.buffers[i], old(a.buffers[i])) || (a.buffers[i] == nil && len(a.buffers[i]) == 0 && i <= rangeindex && i > 0 && alloc >= max))
 //@   loop 1 invariant #mono forall i, j int :: 0 <= i && i <= j && j <= rangeindex && j < 64 && len(a.buffers[i]) == 0 && old(len(a.buffers[i])) > 0 ==> len(a.buffers[j]) == 0
+//@   loop 1 invariant #kept 0 <= kept && (kept <= rangeindex || kept == 0) && kept < 64 && len(a.buffers[kept]) > 0 && (forall i int :: kept < i && i <= rangeindex && i < 64 ==> len(a.buffers[i]) == 0)
 //@   ensures [C12] #wf GcWfChunks(a)
 //@   ensures [C12] #kept forall i int :: 0 <= i && i < 64 && len(a.buffers[i]) > 0 ==> gcSameRef(a.buffers[i], old(a.buffers[i]))
 //@   ensures [C12] #first gcSameRef(a.buffers[0], old(a.buffers[0]))
+//@   ensures [C12] #pos old(GcWfPos(a)) ==> GcWfPos(a)
 
 //@ func (a *Allocator) Copy(buf []byte) []byte
 //@   requires 0 <= len(buf) && (a == nil || (GcWfChunks(a) && GcWfPos(a)))
